@@ -142,34 +142,67 @@ open VL.Blt
     `load_lines` reads back to the same seats, candidate names, withdrawn flags (any subset, any position: line
     `-(i+1)`), ballots with their weights (by value), and title — including the one-candidate and no-candidate
     cases of the candidate/title disambiguation. -/
-theorem blt_roundtrip (d : Doc Weight) (h : WFdoc d = true) : loadBlt (dumpBlt d) = .ok (eraseDoc d) :=
+theorem blt_roundtrip (d : Doc Weight) (h : WFdoc d = true) :
+    ∃ ls, dumpBlt d = .ok ls ∧ loadBlt ls = .ok (eraseDoc d) :=
   load_dump d h
 
-/-- **Parse error or data, never anything else** (the full statement for the BLT parser).  On ANY token lines —
-    items that are not numbers, digits `int()` refuses, NaN weights, candidate numbers outside 1..n, missing
-    terminators, misplaced withdrawn lines, wrong string sections — `load_lines` returns a document or raises
-    BLTParseError (since b98eeeb). -/
-theorem blt_parse_total (ls : List Line) : (∃ d, loadBlt ls = .ok d) ∨ loadBlt ls = .error Err.parseError := by
-  cases h : loadBlt ls with
-  | ok d => exact Or.inl ⟨d, rfl⟩
-  | error e => rw [loadBlt_err ls e h]; exact Or.inr rfl
+/-- **What the writer refuses** (NotSupportedInBLT, the only exception it raises): exactly the elections with a ballot
+    of negative weight — a line starting with a negative number marks withdrawn candidates, so such a ballot used to be
+    lost or to withdraw somebody on reload (since 7f49a3e) — or with a ballot naming somebody outside the candidate
+    list. -/
+theorem blt_dump_refuses_iff (d : Doc Weight) :
+    dumpBlt d = .error Blt.notSupported ↔ ∃ b ∈ d.ballots, b.2.val < 0 ∨ ∃ i ∈ b.1, d.cands.length ≤ i := by
+  unfold dumpBlt
+  constructor
+  · intro h
+    split at h
+    · rename_i hany
+      simp only [List.any_eq_true, voteRefused, Bool.or_eq_true, decide_eq_true_eq] at hany
+      exact hany
+    · simp [pure, Except.pure] at h
+  · intro h
+    have : d.ballots.any (voteRefused d.cands.length) = true := by
+      simp only [List.any_eq_true, voteRefused, Bool.or_eq_true, decide_eq_true_eq]
+      exact h
+    simp [this, throw, throwThe, MonadExceptOf.throw]
 
-/-! With the reader option `oneplus_weights=True` the full statement is FALSE of the current code: a ballot weight below 1
-    is refused with ValueError, not BLTParseError.  What holds: nothing but these two exceptions. -/
-theorem blt_parse_total_oneplus_partial (ls : List Line) :
-    (∃ d, loadBltWith true ls = .ok d) ∨ loadBltWith true ls = .error Err.parseError
-      ∨ loadBltWith true ls = .error (Err.other "ValueError") := by
-  cases h : loadBltWith true ls with
-  | ok d => exact Or.inl ⟨d, rfl⟩
-  | error e =>
-    rcases loadBltWith_true_err ls e h with rfl | rfl
-    · exact Or.inr (Or.inl rfl)
-    · exact Or.inr (Or.inr rfl)
+/-- **Refused at save, or reloaded unchanged** (the full statement for the BLT writer/reader pair): EVERY election —
+    any weights of the three numeric types, negative ones included, any ballots — is either refused by `dump_lines` with
+    NotSupportedInBLT, or written to lines that `load_lines` reads back to the same election.  (`WFrepr` only says that
+    the ballots are dict keys and that a Decimal printed with digits alone is a whole number.) -/
+theorem blt_save_or_faithful (d : Doc Weight) (hr : WFrepr d = true) :
+    dumpBlt d = .error Blt.notSupported ∨ ∃ ls, dumpBlt d = .ok ls ∧ loadBlt ls = .ok (eraseDoc d) := by
+  cases hany : d.ballots.any (voteRefused d.cands.length) with
+  | true => left; simp [dumpBlt, hany, throw, throwThe, MonadExceptOf.throw]
+  | false => right; exact load_dump d (wf_of_not_refused d hr hany)
 
-/-- `loads('2 1\n0.5 1 0\n0\n', oneplus_weights=True)`: ValueError -/
-theorem blt_parse_total_oneplus_witness :
-    loadBltWith true [.toks [.nat 2, .nat 1], .toks [.dec (1/2), .nat 1, .nat 0], .toks [.nat 0]]
-      = .error (Err.other "ValueError") := by
+/-- **Parse error or data, never anything else** (the full statement for the BLT parser, with either setting of the
+    reader option `oneplus_weights`).  On ANY token lines — items that are not numbers, digits `int()` refuses, NaN
+    weights, candidate numbers outside 1..n, missing terminators, misplaced withdrawn lines, wrong string sections, a
+    weight below one under `oneplus_weights=True` — `load_lines` returns a document or raises BLTParseError
+    (since b98eeeb; for the weight below one since 6e1811c, ValueError before). -/
+theorem blt_parse_total (oneplus : Bool) (ls : List Line) :
+    (∃ d, loadBltWith oneplus ls = .ok d) ∨ loadBltWith oneplus ls = .error Err.parseError := by
+  cases h : loadBltWith oneplus ls with
+  | ok d => exact Or.inl ⟨d, rfl⟩
+  | error e => rw [loadBltWith_err oneplus ls e h]; exact Or.inr rfl
+
+/-- `loads('2 1\n0.5 1 0\n0\n', oneplus_weights=True)`: BLTParseError (ValueError before 6e1811c); the same text is a
+    document without the option -/
+theorem blt_oneplus_below_one :
+    loadBltWith true [.toks [.nat 2, .nat 1], .toks [.dec (1/2), .nat 1, .nat 0], .toks [.nat 0]] = .error Err.parseError
+    ∧ loadBltWith false [.toks [.nat 2, .nat 1], .toks [.dec (1/2), .nat 1, .nat 0], .toks [.nat 0]]
+        = .ok { nSeats := 1, cands := [("1", false), ("2", false)], ballots := [([0], 1/2)], title := none } := by
+  decide +kernel
+
+/-- **A ballot listed twice counts with the exact sum of its weights** (since 134a849; Decimal addition used to round
+    to 28 digits): `2 1 / 6 1 0 / 1E-30 1 0 / 0` gives candidate 1 the weight 6 + 10⁻³⁰, and a Decimal and a Fraction
+    line add up (`1.5 2 0` + `1/2 2 0` = 2). -/
+theorem blt_repeated_ballot_exact :
+    loadBlt [.toks [.nat 2, .nat 1], .toks [.nat 6, .nat 1, .nat 0], .toks [.dec (1/1000000000000000000000000000000), .nat 1, .nat 0],
+             .toks [.dec (3/2), .nat 2, .nat 0], .toks [.dec (1/2), .nat 2, .nat 0], .toks [.nat 0]]
+      = .ok { nSeats := 1, cands := [("1", false), ("2", false)],
+              ballots := [([0], 6000000000000000000000000000001/1000000000000000000000000000000), ([1], 2)], title := none } := by
   decide +kernel
 
 /-- **No partial or aliased data**: a document that is returned names only candidates of its own candidate list
@@ -233,15 +266,55 @@ theorem stv_nicks_nonempty (initials : List String) : ∀ s ∈ candidateNicks i
     notation): `dump_lines` writes a text that `load_lines` reads back to a system with the same title, seat count,
     quota, mandatory flag and tie-break setting, the same candidates (names, withdrawn flags, order) and the same
     ballots with their weights. -/
-theorem stv_roundtrip (sd : SysDoc) (hs : wfSys sd = true) (d : Doc Weight) (h : wfStv d = true) :
+theorem stv_roundtrip (sd : SysDoc) (hs : wfSys sd = true) (d : Doc Weight) (h : wfStv d = true) (bl : List Blt.Line) :
     ∃ hv, dumpStv sd.toSys sd.seatsArg true d = .ok hv ∧
-      loadStv hv.1 hv.2 = .ok (eraseDoc d, d.cands.map (fun c => (c.1, c.2.1)), sd.summary) :=
-  load_dump sd hs d h
+      loadStv hv.1 hv.2 bl = .ok (eraseDoc d, d.cands.map (fun c => (c.1, c.2.1)), sd.summary) :=
+  load_dump sd hs d h bl
+
+/-- **Round trip in BLT mode** (`dumps` without a system: `method=blt`, `ballots=blt`, then BLT content).  For every
+    election the BLT round trip holds for (`blt_roundtrip`), the STV writer produces a file the STV reader reads back to
+    the same candidates and ballots, the seat count as FixedSeatCount and an UnknownEvaluator system without title. -/
+theorem stv_blt_mode_roundtrip (d : Blt.Doc Blt.Weight) (h : Blt.WFdoc d = true) (vs : List VLine) :
+    ∃ hv, dumpStvBlt d = .ok hv ∧
+      loadStv hv.1 vs hv.2 = .ok ({ cands := d.cands.map (fun c => (c.1, c.2, "")),
+                                    ballots := d.ballots.map (fun b => (b.1, b.2.val)) }, d.cands, bltSummary d.nSeats) :=
+  load_dump_blt d h vs
+
+/-- **A returned ballot names candidates of the returned list** — in the own format and in BLT mode, whatever the header
+    declares (since f06b201: a header with candidate lines followed by BLT content used to return the header's candidate
+    list with ballots for the people of the BLT content). -/
+theorem stv_loaded_indices_valid (hs : List HLine) (vs : List VLine) (bl : List Blt.Line)
+    (r : Doc Rat × List (String × Bool) × Summary) (h : loadStv hs vs bl = .ok r) :
+    ∀ b ∈ r.1.ballots, ∀ i ∈ b.1, i < r.2.1.length :=
+  loadStv_valid hs vs bl r h
+
+/-- `candidate=x Ann / method=blt / ballots=blt / 1 1 / 2 1 0 / 0`: the candidate of the BLT content ("1") is returned
+    with the ballot that names it; Ann is dropped -/
+theorem stv_blt_mode_header_candidates :
+    loadStv [.cand false "x" "Ann", .other "method" (SVal.word "blt"), .ballotsBlt] []
+        [.toks [.nat 1, .nat 1], .toks [.nat 2, .nat 1, .nat 0], .toks [.nat 0]]
+      = .ok ({ cands := [("1", false, "")], ballots := [([0], 2)] }, [("1", false)], bltSummary 1) := by
+  decide +kernel
+
+/-- a ballot listed twice in the own format: `1.5X a` and `1/2X a` add up to 2 (TypeError before 134a849) -/
+theorem stv_repeated_ballot_exact :
+    loadStv [.other "method" (SVal.word "BC"), .other "quota" (SVal.word "droop"), .cand false "a" "A", .ballotsN 2]
+        [.items (.mult (3/2)) ["a"], .items (.mult (1/2)) ["a"], .endLine] []
+      = .ok ({ cands := [("A", false, "")], ballots := [([0], 2)] }, [("A", false)],
+             { title := none, seats := none, quota := Quota.name "droop", mandatory := false, random := none }) := by
+  decide +kernel
 
 /-- names the format cannot carry ('#', line breaks, edge whitespace, empty) are refused at save -/
 theorem stv_dump_refuses (sys : Sys) (arg : Option Nat) (d : Doc Weight) (ls : List (String × SVal))
     (h : dumpSys sys = .ok ls) : dumpStv sys arg false d = .error notSupported := by
   simp [dumpStv, h, bind, Except.bind, throw, throwThe, MonadExceptOf.throw]
+
+/-- **The STV writer raises nothing but NotSupportedInSTV, and raises it for every negative ballot weight** (since
+    7f49a3e; `-3X a b` was unreadable and a negative Fraction changed nothing but is not a count of ballots) -/
+theorem stv_dump_refuses_negative (sys : Sys) (arg : Option Nat) (namesOK : Bool) (d : Doc Weight)
+    (h : ∃ b ∈ d.ballots, b.2.val < 0) : dumpStv sys arg namesOK d = .error notSupported := by
+  obtain ⟨e, he⟩ := dumpStv_negative sys arg namesOK d h
+  rw [he, dumpStv_err sys arg namesOK d e he]
 
 /-- the header alone: what `_dump_system` writes, `_load_system` collects and `_create_system` reads back to the
     same settings -/
@@ -251,17 +324,17 @@ theorem stv_header_roundtrip (sd : SysDoc) (hs : wfSys sd = true) :
       createSystem c = .ok sd.summary :=
   sys_rt sd hs
 
-/-- **Parse error or data** (the full statement for the STV reader, own unordered format).  On ANY token lines —
-    header and ballots — `load_lines` returns the election, or raises STVParseError, or NotImplementedError for a
-    `method=` other than BC / GPCA2000 (a declared refusal of a well-formed file), or meets a construct outside this
-    model (BLT content, `order=`).  No other exception is possible. -/
-theorem stv_parse_total (hs : List HLine) (vs : List VLine) :
-    (∃ r, loadStv hs vs = .ok r) ∨ loadStv hs vs = .error Err.parseError
-      ∨ loadStv hs vs = .error Err.notImplemented ∨ loadStv hs vs = .error StvFile.unmodelled := by
-  cases h : loadStv hs vs with
+/-- **Parse error or data** (the full statement for the STV reader: own unordered format and BLT mode).  On ANY token
+    lines — header, ballots, BLT content — `load_lines` returns the election, or raises STVParseError, or
+    NotImplementedError for a `method=` other than BC / GPCA2000 / blt (a declared refusal of a well-formed file), or
+    meets the one construct outside this model (`order=`).  No other exception is possible. -/
+theorem stv_parse_total (hs : List HLine) (vs : List VLine) (bl : List Blt.Line) :
+    (∃ r, loadStv hs vs bl = .ok r) ∨ loadStv hs vs bl = .error Err.parseError
+      ∨ loadStv hs vs bl = .error Err.notImplemented ∨ loadStv hs vs bl = .error StvFile.unmodelled := by
+  cases h : loadStv hs vs bl with
   | ok r => exact Or.inl ⟨r, rfl⟩
   | error e =>
-    rcases loadStv_err hs vs e h with rfl | rfl | rfl
+    rcases loadStv_err hs vs bl e h with rfl | rfl | rfl
     · exact Or.inr (Or.inl rfl)
     · exact Or.inr (Or.inr (Or.inl rfl))
     · exact Or.inr (Or.inr (Or.inr rfl))
@@ -269,13 +342,13 @@ theorem stv_parse_total (hs : List HLine) (vs : List VLine) :
 /-- the header lines that raised TypeError / AttributeError / IndexError / ValueError before: all STVParseError now
     (`foo=bar`; `random=1` twice; `quota=mandatory` twice; `candidate=a`) -/
 theorem stv_former_foreign_errors :
-    loadStv [.other "method" (SVal.word "BC"), .other "quota" (SVal.word "droop"), .other "foo" (SVal.word "bar"), .ballotsN 0] [.endLine]
+    loadStv [.other "method" (SVal.word "BC"), .other "quota" (SVal.word "droop"), .other "foo" (SVal.word "bar"), .ballotsN 0] [.endLine] []
         = .error Err.parseError
     ∧ loadStv [.other "method" (SVal.word "BC"), .other "quota" (SVal.word "droop"), .other "random" (SVal.num 1),
-               .other "random" (SVal.num 2), .ballotsN 0] [.endLine] = .error Err.parseError
+               .other "random" (SVal.num 2), .ballotsN 0] [.endLine] [] = .error Err.parseError
     ∧ loadStv [.other "method" (SVal.word "BC"), .other "quota" (SVal.word "mandatory"), .other "quota" (SVal.word "mandatory"),
-               .ballotsN 0] [.endLine] = .error Err.parseError
-    ∧ loadStv [.other "method" (SVal.word "BC"), .other "quota" (SVal.word "droop"), .candBad, .ballotsN 0] [.endLine]
+               .ballotsN 0] [.endLine] [] = .error Err.parseError
+    ∧ loadStv [.other "method" (SVal.word "BC"), .other "quota" (SVal.word "droop"), .candBad, .ballotsN 0] [.endLine] []
         = .error Err.parseError :=
   ⟨rfl, rfl, rfl, rfl⟩
 
@@ -288,8 +361,8 @@ theorem stv_end_and_empty_ballot_reload :
     let d : Doc Weight := { cands := [("Ed N. Dav", false, "end"), ("Bo", false, "b")],
                             ballots := [([0], ⟨1, true⟩), ([], ⟨1, true⟩), ([1], ⟨2, true⟩)] }
     ∃ hv, dumpStv sysW.toSys none true d = .ok hv ∧
-      loadStv hv.1 hv.2 = .ok (eraseDoc d, [("Ed N. Dav", false), ("Bo", false)], sysW.summary) :=
-  load_dump sysW (by decide +kernel) _ (by decide +kernel)
+      loadStv hv.1 hv.2 [] = .ok (eraseDoc d, [("Ed N. Dav", false), ("Bo", false)], sysW.summary) :=
+  load_dump sysW (by decide +kernel) _ (by decide +kernel) []
 
 /-- non-vacuity: duplicate initials ("Ann Berg", "Al Brown" → ordinal nicknames a, b, c), a withdrawn candidate,
     Fraction and Decimal multipliers, empty ballots, a weight-1 ballot; a system with title, seats argument, mandatory
